@@ -98,9 +98,11 @@ Proof.
 Qed.
 Lemma Tm_sync_rm keys acc k : Tm (fst acc) (fst (sync_rm keys acc k)).
 Proof. destruct acc as [s removed]. unfold sync_rm. destruct (mem k keys); cbn [fst]; [apply Tm_refl | apply Tm_remove_key]. Qed.
+Lemma Tm_norm_ctx s : Tm s (norm_ctx s).
+Proof. unfold norm_ctx. destruct (root_canc s (kctx s)); [tme | apply Tm_refl]. Qed.
 Lemma Tm_sync_keys fx s keys restart : Tm s (fst (sync_keys fx s keys restart)).
 Proof.
-  unfold sync_keys.
+  unfold sync_keys. eapply Tm_trans; [apply Tm_norm_ctx|]. generalize (norm_ctx s). clear s. intros s. unfold sync_core.
   pose proof (Tm_fold_acc (fun acc : st * list nat * list nat => fst (fst acc)) (sync_one fx restart) (Tm_sync_one fx restart) keys (s, [], [])) as G1.
   destruct (fold_left (sync_one fx restart) keys (s, [], [])) as [[s1 seen] added]. cbn [fst] in G1.
   pose proof (Tm_fold_acc (fun acc : st * list nat => fst acc) (sync_rm keys) (Tm_sync_rm keys) (map fst (kmap s1)) (s1, [])) as G2.
@@ -120,7 +122,8 @@ Proof.
 Qed.
 Lemma Tm_reset_routine fx s k cond : Tm s (fst (reset_routine fx s k cond)).
 Proof.
-  unfold reset_routine. destruct (lookup (kmap s) k) as [r|]; [|apply Tm_refl]. destruct (negb (cond_match cond k)); [apply Tm_refl|].
+  unfold reset_routine. eapply Tm_trans; [apply Tm_norm_ctx|]. generalize (norm_ctx s). clear s. intros s. unfold reset_core.
+  destruct (lookup (kmap s) k) as [r|]; [|apply Tm_refl]. destruct (negb (cond_match cond k)); [apply Tm_refl|].
   set (s1 := cancel_inst s (rcancel (getr s r))). set (w0 := if has_ctx s1 || fx_reset fx then _ else _).
   pose proof (Tm_new_record s1 k (rlin (getr s r)) w0) as G. destruct (new_record s1 k (rlin (getr s r)) w0) as [s2 r2]. cbn [fst] in *.
   eapply Tm_trans; [apply Tm_cancel_inst|]. fold s1. eapply Tm_trans; [exact G|].
@@ -128,7 +131,8 @@ Proof.
 Qed.
 Lemma Tm_restart_routine s k cond : Tm s (fst (restart_routine s k cond)).
 Proof.
-  unfold restart_routine. destruct (lookup (kmap s) k) as [r|]; [|apply Tm_refl].
+  unfold restart_routine. eapply Tm_trans; [apply Tm_norm_ctx|]. generalize (norm_ctx s). clear s. intros s. unfold restart_core.
+  destruct (lookup (kmap s) k) as [r|]; [|apply Tm_refl].
   destruct (negb (has_ctx s)); [apply Tm_refl|]. destruct (negb (cond_match cond k)); [apply Tm_refl|]. cbn [fst].
   eapply (Tm_trans _ (setr (cancel_inst s (rcancel (getr s r))) r (with_cancel (getr s r) None))); [eapply Tm_trans; [apply Tm_cancel_inst | tme]|].
   apply Tm_start_rec.
@@ -206,6 +210,7 @@ Proof.
   - apply Tm_add_key_ref. - apply Tm_release_start. - apply Tm_release_section. - apply Tm_rc_remove_key.
   - apply Tm_proceed. - apply Tm_wake. - apply Tm_fn_return. - apply Tm_bookkeep.
   - apply Tm_timer_cb.
+  - unfold cancel_root. destruct (Nat.eqb c 0); [apply Tm_refl | tme].
 Qed.
 
 Theorem run_InvClk fx dl sc es : InvClk (run fx (init dl sc) es).
